@@ -3318,6 +3318,32 @@ func ruleWhoMayCall(c *Ctx, rule, callee, why string, allowedRoots ...string) {
 		for _, f := range family(L, resolveRole(c, genPkg, a)) {
 			allowed[f] = true
 		}
+		// and everything the root reaches through static calls inside the package (a helper shared by two allowed roots is
+		// not in either one's family)
+		work := []*ssa.Function{resolveRole(c, genPkg, a)}
+		visited := map[*ssa.Function]bool{}
+		for len(work) > 0 {
+			f := work[len(work)-1]
+			work = work[:len(work)-1]
+			if f == nil || visited[f] {
+				continue
+			}
+			visited[f] = true
+			for _, w := range withClosures(f) {
+				allowed[w] = true
+				for _, cs := range callsIn(w) {
+					g := cs.common.StaticCallee()
+					if g == nil {
+						continue
+					}
+					g = originOf(g)
+					if g.Pkg == nil || g.Pkg.Pkg.Path() != genPkg || !L.NonTest[g] || g == target {
+						continue
+					}
+					work = append(work, g)
+				}
+			}
+		}
 	}
 	n := 0
 	for _, fn := range pkgFuncs(L, genPkg) {
@@ -6039,4 +6065,205 @@ func rulePatternImportWalkComplete(c *Ctx, rule string) {
 		}
 	}
 	c.floor(rule, "expression / sub-pattern fields of the pattern kinds the collector handles", n, 5)
+}
+
+// ruleVarDeclByName: the initialiser of a Set variable is the value at the position of THAT variable's name in its
+// declaration (`var a, b = kessoku.Set(..), kessoku.Set(..)`): getVarDecl returns Values[i] only under an equality test
+// between Names[i] (its Name or Pos) and the looked-up object, with the same index i. Returning the first value, or the
+// value of the first name that merely precedes the object, resolves `b` to the providers of `a`.
+func ruleVarDeclByName(c *Ctx, rule string) {
+	L := c.L
+	fn := resolveRole(c, genPkg, "(*Parser).getVarDecl")
+	if fn == nil {
+		c.undecided(rule, "getVarDecl", "function not found")
+		return
+	}
+	n := 0
+	for _, f := range family(L, fn) {
+		for _, r := range returnsOf(f) {
+			if len(r.Results) != 1 || isNilConst(r.Results[0]) || r.Results[0].Type().String() != "go/ast.Expr" {
+				continue
+			}
+			u, ok := resolve(r.Results[0]).(*ssa.UnOp)
+			if !ok || u.Op != token.MUL {
+				continue
+			}
+			ia, ok := u.X.(*ssa.IndexAddr)
+			if !ok {
+				continue
+			}
+			s := newSym(L, map[string]bool{})
+			s.maxD = 0
+			if !strings.Contains(strings.Join(s.eval(ia.X), "|"), "go/ast.ValueSpec.Values(") {
+				continue
+			}
+			n++
+			okSel, why := false, "no equality test between the declared name at that index and the variable"
+			for _, iff := range controllingIfs(r) {
+				bo, isB := iff.Cond.(*ssa.BinOp)
+				if !isB || bo.Op != token.EQL || !(iff.Block().Succs[0] == r.Block() || iff.Block().Succs[0].Dominates(r.Block())) {
+					continue
+				}
+				// one side: Names[i].Name / Names[i].Pos() with the index of the returned value; other side: derived from the object
+				sideOf := func(v ssa.Value) (names bool, sameIdx bool, obj bool) {
+					t := strings.Join(s.eval(v), "|")
+					names = strings.Contains(t, "go/ast.ValueSpec.Names(")
+					obj = strings.Contains(t, "param:") && !names
+					var find func(x ssa.Value, d int)
+					find = func(x ssa.Value, d int) {
+						if d > 6 || x == nil {
+							return
+						}
+						switch y := x.(type) {
+						case *ssa.UnOp:
+							find(y.X, d+1)
+						case *ssa.FieldAddr:
+							find(y.X, d+1)
+						case *ssa.IndexAddr:
+							if y.Index == ia.Index {
+								sameIdx = true
+							}
+							find(y.X, d+1)
+						case *ssa.Call:
+							for _, a := range y.Common().Args {
+								find(a, d+1)
+							}
+						}
+					}
+					find(v, 0)
+					return
+				}
+				n1, i1, o1 := sideOf(bo.X)
+				n2, i2, o2 := sideOf(bo.Y)
+				if (n1 && i1 && o2) || (n2 && i2 && o1) {
+					okSel, why = true, "returned under Names[i] == <object> with the same index"
+				}
+			}
+			c.check(okSel, rule, fnName(fn)+":initialiser-of-the-named-variable", L.pos(r.Pos()),
+				"a Set variable resolves to the value at the position of its own name in the declaration", why)
+		}
+	}
+	c.floor(rule, "returns of a ValueSpec value in getVarDecl", n, 1)
+}
+
+// ruleLhsOnePerResult (C04): the left-hand side of a provider call has one place per result of the provider. Several
+// provided types may share one parameter (a multi-type provider), so buildLhsExpressions lists every *InjectorParam* once -
+// the guard that skips a repetition is keyed by the parameter itself, not by its printed name: results nobody consumes are
+// all printed `_`, and a guard keyed by name would drop all but the first of them (`db, _, err :=` for four results).
+func ruleLhsOnePerResult(c *Ctx, rule string) {
+	L := c.L
+	fn := genFn(c, rule, "(*InjectorProviderCallStmt).buildLhsExpressions")
+	if fn == nil {
+		return
+	}
+	n := 0
+	for _, f := range family(L, fn) {
+		for _, cs := range callsIn(f) {
+			bi, ok := cs.common.Value.(*ssa.Builtin)
+			if !ok || bi.Name() != "append" || len(cs.common.Args) != 2 || !strings.HasSuffix(cs.common.Args[0].Type().String(), "[]go/ast.Expr") {
+				continue
+			}
+			n++
+			var hdr *ssa.BasicBlock
+			b := cs.instr.Block()
+			for d := b.Idom(); d != nil; d = d.Idom() {
+				isHeader := false
+				for _, pr := range d.Preds {
+					if d.Dominates(pr) {
+						isHeader = true
+					}
+				}
+				if isHeader && reachable(b, d) {
+					hdr = d
+					break
+				}
+			}
+			if hdr == nil {
+				continue
+			}
+			for d := b.Idom(); d != nil && d != hdr; d = d.Idom() {
+				iff, isIf := d.Instrs[len(d.Instrs)-1].(*ssa.If)
+				if !isIf {
+					continue
+				}
+				// the guard: a lookup in a set of parameters
+				okGuard, why := false, describe(iff.Cond)
+				cond := iff.Cond
+				if u, isU := cond.(*ssa.UnOp); isU && u.Op == token.NOT {
+					cond = u.X
+				}
+				var lk *ssa.Lookup
+				switch x := cond.(type) {
+				case *ssa.Lookup:
+					lk = x
+				case *ssa.Extract:
+					lk, _ = x.Tuple.(*ssa.Lookup)
+				}
+				if lk != nil {
+					why = "a set keyed by " + lk.Index.Type().String()
+					okGuard = strings.HasSuffix(lk.Index.Type().String(), genPkg+".InjectorParam")
+				}
+				c.check(okGuard, rule, fnName(fn)+":one-place-per-parameter", L.pos(iff.Cond.Pos()),
+					"a result is left out of the left-hand side only when its very parameter is already listed (never because its printed name, e.g. `_`, repeats)", why)
+			}
+		}
+	}
+	c.floor(rule, "appends to the left-hand side list", n, 1)
+}
+
+// rulePackagesNotComparedByName: two packages are the same package when they are the same *types.Package (or have the same
+// path) - never because their names agree. The migration decides "this type belongs to the output package, print it bare"
+// by such a comparison; by name, a type of another package that happens to be called like the output package loses its
+// qualifier (`undefined: Source`).
+func rulePackagesNotComparedByName(c *Ctx, rule string, pkgs ...string) {
+	L := c.L
+	n := 0
+	isPkgName := func(v ssa.Value) bool {
+		call, ok := resolve(v).(*ssa.Call)
+		return ok && calleeOf(call.Common()) == "(*go/types.Package).Name"
+	}
+	for _, fn := range pkgFuncs(L, pkgs...) {
+		for _, b := range fn.Blocks {
+			for _, in := range b.Instrs {
+				bo, ok := in.(*ssa.BinOp)
+				if !ok || (bo.Op != token.EQL && bo.Op != token.NEQ) || bo.X.Type().String() != "string" {
+					continue
+				}
+				if isPkgName(bo.X) || isPkgName(bo.Y) {
+					n++
+				}
+				c.check(!(isPkgName(bo.X) && isPkgName(bo.Y)), rule, fnName(fn)+":packages-compared-by-name", L.pos(bo.Pos()),
+					"package identity is decided by the package object or its path, not by its name", "comparison of two (*types.Package).Name() results")
+			}
+		}
+	}
+	c.ok(rule, "no two packages are compared by name", fmt.Sprintf("%d comparisons involving a package name inspected", n))
+}
+
+// ruleDestinationNotInspected (C15/C16): what gets installed, and whether, does not depend on what is already in the
+// destination: besides the one validation of the base path (ValidatePath: it must not be a regular file) the installer
+// never reads the state of the file system - no Stat/Lstat/ReadDir/ReadFile/Open/Readlink/Glob/Walk on operating-system
+// paths. A decision taken from the destination's content ("already up to date", "not our directory") makes the result
+// depend on the history of earlier, possibly interrupted, runs.
+func ruleDestinationNotInspected(c *Ctx, rule string) {
+	L := c.L
+	vp := L.fn(llmPkg, "ValidatePath")
+	n := 0
+	for _, fn := range llmFuncs(L) {
+		for _, cs := range callsIn(fn) {
+			switch cs.callee {
+			case "os.Stat", "os.Lstat", "os.ReadDir", "os.ReadFile", "os.Open", "os.Readlink", "path/filepath.Glob", "path/filepath.Walk", "path/filepath.WalkDir", "path/filepath.EvalSymlinks":
+			default:
+				continue
+			}
+			n++
+			root := fn
+			for root.Parent() != nil {
+				root = root.Parent()
+			}
+			c.check(vp != nil && root == vp, rule, fnName(fn)+":reads-destination-state:"+cs.callee, L.pos(cs.instr.Pos()),
+				"the installer reads the file system only to validate the base path; nothing else it does depends on what the destination already holds", cs.callee+" outside ValidatePath")
+		}
+	}
+	c.floor(rule, "file-system reads in internal/llmsetup", n, 1)
 }
